@@ -511,6 +511,7 @@ def gen_body(b, seed, v039, n_handles, n_callsites):
         n_pool['method+proto'] = 0
     items = []
     payloads = []
+    cmt_nonzero = False
     labels = ['L%d' % i for i in range(n)]
     for i in range(n):
         items.append(labels[i] + ':')
@@ -556,7 +557,13 @@ def gen_body(b, seed, v039, n_handles, n_callsites):
                 items.append((op, regs, rng.randrange(n_pool[kind])))
         elif kind:
             spec = FIELD_SPEC[fmt][:-1]
-            items.append((op,) + tuple(rnd_field(rng, bb, s) for bb, s in spec) + (rng.randrange(n_pool[kind]),))
+            regs = tuple(rnd_field(rng, bb, s) for bb, s in spec)
+            if op == 0xFF:
+                # androguard rejects `const-method-type vAA` with AA != 0 (it takes 0xAAff for an
+                # extended opcode); keep most files free of it so that the rest is still compared
+                regs = (0,) if rng.random() < .8 else regs
+                cmt_nonzero = cmt_nonzero or regs[0] != 0
+            items.append((op,) + regs + (rng.randrange(n_pool[kind]),))
         else:
             items.append((op,) + tuple(rnd_field(rng, bb, s) for bb, s in FIELD_SPEC[fmt]))
     items.append('END:')
@@ -580,7 +587,7 @@ def gen_body(b, seed, v039, n_handles, n_callsites):
             if rng.random() < .7:
                 hs, ca = rng.choice(protos)
                 tries.append(Try(a, z - a, list(hs), ca))
-    return code, tries, starts
+    return code, tries, starts, cmt_nonzero
 
 
 class Memo:
@@ -1181,6 +1188,17 @@ def compare_mini(spec, data, R):
                     check(rcode['nhandlers'] == want, 'mini: handler list size', (rcode['nhandlers'], want))
                     check(b.layout['code'][er] == rcode['off'], 'mini: layout code off')
                     check(data[b.layout['insns'][er]:][:len(ecode['insns'])] == ecode['insns'], 'mini: layout insns')
+                    body = spec.bodies[er].get(b)
+                    sw = list(sweep(ecode['insns']))
+                    check(b''.join(x[4] for x in sw) == ecode['insns'], 'sweep covers the code')
+                    st = [x[0] for x in sw if x[2] != 'payload']
+                    # generated instruction starts (labels + END) are exactly the non-payload
+                    # instruction starts, apart from alignment nops in front of payloads
+                    check(set(body[2]) <= set(st), 'sweep instruction starts', (body[2], st))
+                    for a, nm, fmt, f, rw in sw:
+                        if fmt != 'payload':
+                            u = struct.unpack('<%dH' % (len(rw) // 2), rw)
+                            check(decode_fields(fmt, u) == (rw[0], f), 'decode_format vs selftest decoder', (nm, rw.hex()))
                     check((rcode['debug'] != 0) == (b.code_debug[er] is not None), 'mini: debug presence')
                     if rcode['debug']:
                         check(data[rcode['debug']:].startswith(b.code_debug[er]), 'mini: debug bytes')
@@ -1304,12 +1322,20 @@ def ag_compare(spec, data):
                 check(bytes(code.get_bc().get_insn()) == ecode['insns'], 'androguard: insns bytes', er)
                 # linear sweep must reproduce the bytes
                 try:
-                    raw = b''.join(bytes(i.get_raw()) for i in code.get_bc().get_instructions())
+                    ag_ins = list(code.get_bc().get_instructions())
+                    raw = b''.join(bytes(i.get_raw()) for i in ag_ins)
                     if raw != ecode['insns']:
                         fail('androguard: instructions re-encode differently', (er, raw.hex(), ecode['insns'].hex()))
+                    mine = list(sweep(ecode['insns']))
+                    got = [(i.get_name(), i.get_length()) for i in ag_ins]
+                    want = [(nm, len(rw)) for _, nm, _, _, rw in mine]
+                    check(got == want, 'androguard: mnemonics/lengths vs sweep', lambda: (er, got, want))
                 except Exception as e:  # noqa
-                    fail('androguard: get_instructions raised', '%s %s: %s %s' % (
-                        er, type(e).__name__, e, ecode['insns'].hex()))
+                    if spec.bodies[er].get(b)[3]:
+                        known('androguard-const-method-type-nonzero-register', (er[1], ecode['insns'].hex()))
+                    else:
+                        fail('androguard: get_instructions raised', '%s %s: %s %s' % (
+                            er, type(e).__name__, e, ecode['insns'].hex()))
                 tries = code.get_tries()
                 check(len(tries) == len(ecode['tries']), 'androguard: tries count')
                 hl = code.get_handlers()
@@ -1342,7 +1368,10 @@ def ag_compare(spec, data):
         check(nm >= ncode, 'androguard: analysis method count', (nm, ncode))
     except Exception as e:  # noqa
         import traceback
-        fail('androguard: Analysis/create_xref raised', traceback.format_exc()[-900:])
+        if any(m.get(b)[3] for m in spec.bodies.values()):
+            known('androguard-const-method-type-nonzero-register', 'Analysis: %s' % type(e).__name__)
+        else:
+            fail('androguard: Analysis/create_xref raised', traceback.format_exc()[-900:])
 
 
 def ag_value_check(iv, ev, b):
@@ -1379,6 +1408,66 @@ def ag_value_check(iv, ev, b):
             check(False, 'androguard: string value', (got, e))
 
 
+def handmade_checks():
+    # empty file
+    b = DexBuilder()
+    data = b.build()
+    R = mini_read(data)
+    check(len(data) == 0x70 + 4 + 2 * 12 and R['classes'] == [] and R['strings'] == [], 'empty file', len(data))
+    ag_compare_light(data)
+    # symbolic item-list code with label tries
+    b = DexBuilder()
+    out = FieldRef('Ljava/lang/System;', 'out', 'Ljava/io/PrintStream;')
+    println = MethodRef('Ljava/io/PrintStream;', 'println', 'V', ('Ljava/lang/String;',))
+    b.add_class('LHello;', direct_methods=[Method('main', 'V', ('[Ljava/lang/String;',), 0x9, Code(3, 1, 2, [
+        'try_start:',
+        ('sget-object', 0, out),
+        ('const-string', 1, StringRef('Hello, w\u00f6rld \U0001F600')),
+        ('invoke-virtual', (0, 1), println),
+        'try_end:',
+        ('return-void',),
+        'handler:',
+        ('move-exception', 2),
+        ('new-instance', 0, TypeRef('Ljava/lang/RuntimeException;')),
+        ('throw', 2),
+    ], tries=[Try('try_start', 'try_end', [('Ljava/lang/Exception;', 'handler')], 'handler')]))])
+    data = b.build()
+    ref = ('LHello;', 'main', 'V', ('[Ljava/lang/String;',))
+    check(b.code_labels[ref] == {'try_start': 0, 'try_end': 7, 'handler': 8}, 'item-list labels', dict(b.code_labels[ref]))
+    check(b.code_tries[ref] == [Try(0, 7, [('Ljava/lang/Exception;', 8)], 8)], 'label tries', b.code_tries[ref])
+    exp = (ins('sget-object', 0, b.field_idx(*out.key)) + ins('const-string', 1, b.string_idx('Hello, w\u00f6rld \U0001F600'))
+           + ins('invoke-virtual', (0, 1), b.method_idx(*println.key)) + ins('return-void') + ins('move-exception', 2)
+           + ins('new-instance', 0, b.type_idx('Ljava/lang/RuntimeException;')) + ins('throw', 2))
+    check(b.code_bytes[ref] == exp, 'item-list code bytes')
+    R = mini_read(data)
+    m = R['classes'][0]['dmethods'][0]
+    check(m[2]['insns'] == exp and m[2]['tries'] == [(0, 7, [('Ljava/lang/Exception;', 8)], 8)], 'item-list via mini reader')
+    from androguard.core.dex import DEX
+    from androguard.core.analysis.analysis import Analysis
+    d = DEX(data)
+    dx = Analysis(d)
+    dx.create_xref()
+    em = list(d.get_classes()[0].get_methods())[0]
+    txt = [(i.get_name(), i.get_output()) for i in em.get_instructions()]
+    check(txt[1][0] == 'const-string' and 'Hello, w\u00f6rld \U0001F600' in txt[1][1], 'androguard shows the string', txt[1])
+    check('Ljava/io/PrintStream;->println(Ljava/lang/String;)V' in txt[2][1], 'androguard shows the method', txt[2])
+    ma = dx.get_method_analysis(em)
+    check(any(str(m2.get_method().get_name()) == 'println' for _, m2, _ in ma.get_xref_to()), 'androguard xref_to println')
+    # class_defs ordering: subclass added first
+    b = DexBuilder()
+    b.add_class('LB;', superclass='LA;', interfaces=('LI;',))
+    b.add_class('LI;', access=0x601)
+    b.add_class('LA;')
+    b.build()
+    check([c.name for c in b.class_order] == ['LI;', 'LA;', 'LB;'] or [c.name for c in b.class_order] == ['LA;', 'LI;', 'LB;'],
+          'class_defs order', [c.name for c in b.class_order])
+    # string sort order is by UTF-16 code units, not code points
+    b = DexBuilder()
+    b.extra_strings += ['\U00010000', '\uffff', '\ue000', 'a', '', '\x00', '\ud800']
+    b.freeze()
+    check(b.strings == ['', '\x00', 'a', '\ud800', '\U00010000', '\ue000', '\uffff'], 'UTF-16 sort order', b.strings)
+
+
 # ==========================================================================================
 
 def main(argv):
@@ -1392,6 +1481,11 @@ def main(argv):
         pass
     rng = random.Random(seed)
     n = unit_checks(rng)
+    try:
+        handmade_checks()
+    except Exception:
+        import traceback
+        fail('handmade checks raised', traceback.format_exc()[-900:])
     print('unit checks: %d random cases, %d failures, %.1fs' % (n, len(FAILS), time.time() - t0))
     stats = {'files': 0, 'classes': 0, 'methods': 0, 'code': 0, 'tries': 0, 'bytes': 0, 'strings': 0,
              'static_values': 0, 'annotated': 0, 'v039': 0}
